@@ -68,6 +68,11 @@ CLAIMED["C19"]=dict(
    text="Exploration: 40k (quick) / 600k (thorough) programs over 7 sub-models: map operation sequences with colliding Int/String keys, list and array functions incl. out-of-range index/slice (must be errors), string functions at arbitrary byte indices over multi-byte text, JSON round trips of generated record/variant types against serde_json, derived Eq/Show on generated algebraic types with pairs differing in the last leaf. Found and fixed: floats changed by one ulp in a JSON round trip.",
    note="inputs are program literals (marshalling is C11's); JSON variants are restricted to what the untagged derived encoding can round-trip; sort stability is not asserted",
    ref="6 C19")
+CLAIMED["C11"]=dict(
+   technique="property-based round-trip testing over a closed family of Rust types: per monomorphic type a tape decoder for values, bitwise equality, the expected Gluon observation and a Gluon literal; routes = push/get, type-guided observation, Gluon identity function, serde bridge in both directions, literal read as T; plus the complete type-refusal matrix (run_expr::<U>, get_global::<U>)",
+   text="Exploration: 60k (quick) / 1.5M (thorough) values over 55 types (scalars incl. boundary ints, NaN payloads, -0.0, NUL and multi-byte strings; Option/Result/Vec/tuple/BTreeMap nestings to depth 3; 7 derived structs incl. reordered fields and a newtype; 4 derived enums), 5-7 routes each; the 55x55 refusal matrix through two APIs is complete. Found and fixed: three De defects (unbounded recursion, tuples, unit). Three recorded known findings (Ser is not type directed; De<Result> by index; De of maps).",
+   note="for types containing a constructor named in KF-C11-01/02/03 the affected serde route is matched against that finding (by route name + type feature); all other routes of those values are still enforced",
+   ref="6 C11")
 NOT_YET = {}
 def main():
     props=[json.loads(l) for l in open('/verif/properties.jsonl')]
